@@ -742,6 +742,38 @@ def b_max(interp, st, fr, args, kw):
     return r
 
 
+@model('builtins.getattr')
+def b_getattr(interp, st, fr, args, kw):
+    """getattr(obj, name[, default]) for a constant name: the attribute, or the default where Python would raise
+    AttributeError (plain numbers and strings have no data attributes the executor knows)."""
+    from .interp import Raised
+    if len(args) < 2 or not isinstance(args[1], str):
+        raise Unsupported('getattr with a computed attribute name')
+    obj, name = args[0], args[1]
+    try:
+        if isinstance(obj, (int, float, str, bool, Sc)) or type(obj).__name__ == 'Fraction' or obj is None:
+            raise Raised('AttributeError', name)
+        return interp.get_attribute(obj, name, st, fr)
+    except Raised as e:
+        if e.exc == 'AttributeError' and len(args) > 2:
+            return args[2]
+        raise
+
+
+@model('builtins.hasattr')
+def b_hasattr(interp, st, fr, args, kw):
+    from .interp import Raised
+    if len(args) != 2 or not isinstance(args[1], str):
+        raise Unsupported('hasattr with a computed attribute name')
+    try:
+        b_getattr(interp, st, fr, args, kw)
+        return True
+    except Raised as e:
+        if e.exc == 'AttributeError':
+            return False
+        raise
+
+
 @model('builtins.isinstance')
 def b_isinstance(interp, st, fr, args, kw):
     from .interp import ClassVal, TypeVal, ExtFunc
